@@ -91,8 +91,8 @@ def mbrPartsStr (ps : List Mbr.Part) : String :=
   if ps.isEmpty then "-" else ";".intercalate (ps.map mbrPartStr)
 
 def parseCfg (args : List String) : Cfg :=
-  match ((arg args "cfg").getD "1111").toList with
-  | [a, b, c, d] => ⟨a == '1', b == '1', c == '1', d == '1'⟩
+  match ((arg args "cfg").getD "11111").toList with
+  | [a, b, c, d, e] => ⟨a == '1', b == '1', c == '1', d == '1', e == '1'⟩
   | _ => Cfg.fixed
 
 def wrFinger (w : Wr) : String :=
